@@ -40,8 +40,11 @@ int ep3_cmp(const ep3_t p, const ep3_t q) {
 	ep3_t r, s;
 	int result = RLC_NE;
 
-	if (ep3_is_infty(p) && ep3_is_infty(q)) {
-		return RLC_EQ;
+	if (ep3_is_infty(p) || ep3_is_infty(q)) {
+		/* The cross-multiplication below cannot tell the point at infinity
+		 * (stored with x = y = 0) from the affine point (0, 0), which lies on
+		 * every curve with b = 0. */
+		return (ep3_is_infty(p) && ep3_is_infty(q)) ? RLC_EQ : RLC_NE;
 	}
 
 	ep3_null(r);
